@@ -7,8 +7,8 @@ VAR_VALUES = {
     "int": [0, 1, 2, 7, -3, 1000],
     "str": ["", "a", "b", "a|b", "é"],
     "float": [0.0, 0.5, -1.5, 2.0],
-    "list": [[], [1], [1, 2], ["a"], [[1], [2]]],
-    "dict": [{}, {"a": 1}, {"a": 2}, {"b": 1}, {"a": 1, "b": 2}],
+    "list": [[], [1], [1, 2], ["a"], [[1], [2]], [[1], [3]], [{"a": 1}], [{"a": 2}]],
+    "dict": [{}, {"a": 1}, {"a": 2}, {"b": 1}, {"a": 1, "b": 2}, {"w": {"x": 1}}, {"w": {"x": 2}}, {"w": [1, 2]}, {"w": [1, 3]}],
     "bool": [True, False],
     "none": [None],
     "tuple": [[], [1], [1, 2], ["a", 1]],
@@ -181,6 +181,9 @@ def _add_loads(prog, rng, feat):
             p = rng.choice(cand)
         pos = rng.randrange(len(f["body"]) + 1)
         f["body"].insert(pos, {"t": "load", "path": p})
+        if rng.random() < 0.3:
+            # the same path loaded a second time in the same function
+            f["body"].insert(rng.randrange(pos + 1, len(f["body"]) + 1), {"t": "load", "path": p})
 
 
 def _lit(rng, feat):
